@@ -559,7 +559,33 @@ def o_opt_cloned(ev, st, t, site):
     return _set_dest(st, t, some(_deref(st, dict(v[2]).get(0))))
 
 
+def o_opt_pure(ev, st, t, site):
+    """Closure-free Option combinators on values whose variant is known: or / and / xor / unwrap_or / is_some / is_none."""
+    m = re.search(r"::(or|and|xor|unwrap_or|is_some|is_none)$", norm(site.name))
+    a = _deref(st, _arg(ev, st, t, 0))
+    if m is None or a is None or a[0] != "variant" or a[1] not in ("Some", "None"):
+        return False
+    op, sa = m.group(1), a[1] == "Some"
+    if op in ("is_some", "is_none"):
+        return _set_dest(st, t, ("const", "true" if sa == (op == "is_some") else "false"))
+    b = _arg(ev, st, t, 1)
+    if b is None:
+        return False
+    if op == "unwrap_or":
+        return _set_dest(st, t, dict(a[2]).get(0) if sa else b)
+    bv = _deref(st, b)
+    if bv is None or bv[0] != "variant" or bv[1] not in ("Some", "None"):
+        return False
+    sb = bv[1] == "Some"
+    if op == "or":
+        return _set_dest(st, t, a if sa else bv)
+    if op == "and":
+        return _set_dest(st, t, bv if sa else NONE)
+    return _set_dest(st, t, a if sa and not sb else (bv if sb and not sa else NONE))
+
+
 OPTION_ORACLES = [
+    (r"Option.*::(or|and|xor|unwrap_or|is_some|is_none)$", o_opt_pure),
     (r"Option.*::(cloned|copied)$", o_opt_cloned),
     (r"Option.*::(as_ref|as_mut|as_deref|as_deref_mut)$", o_opt_as_ref),
     (r"Option.*::(unwrap|expect)$|Result.*::(unwrap|expect)$", o_unwrap),
